@@ -442,6 +442,90 @@ func ruleResponseHandling(c *Ctx) {
 	info := fi.Pkg.TypesInfo
 	m := paramObjs(info, fi.Decl)[0]
 	resOf := map[*ast.CallExpr]types.Object{}
+	// A local accumulator of results: `resultq = append(resultq, acc...)` where acc is a local list that is otherwise
+	// only created empty and grown by `acc = append(acc, x)`. A staged append then counts as the iteration's result,
+	// and the whole-function clause below requires the accumulator to be flushed into the result queue on every
+	// path that made a dequeue decision (an early error return included: what was dequeued before it is accounted).
+	appendCall := func(e ast.Expr) *ast.CallExpr {
+		if call, ok := ast.Unparen(e).(*ast.CallExpr); ok && len(call.Args) == 2 {
+			if id, ok := ast.Unparen(call.Fun).(*ast.Ident); ok && id.Name == "append" {
+				if _, isB := info.ObjectOf(id).(*types.Builtin); isB {
+					return call
+				}
+			}
+		}
+		return nil
+	}
+	var accObj types.Object
+	inspectNoFuncLit(fi.Decl.Body, func(x ast.Node) bool {
+		if as, ok := x.(*ast.AssignStmt); ok && len(as.Lhs) == 1 && len(as.Rhs) == 1 {
+			if _, p := selectorPath(info, as.Lhs[0]); len(p) > 0 && p[len(p)-1] == "resultq" {
+				if call := appendCall(as.Rhs[0]); call != nil && call.Ellipsis.IsValid() && types.ExprString(call.Args[0]) == types.ExprString(as.Lhs[0]) {
+					if id, ok := ast.Unparen(call.Args[1]).(*ast.Ident); ok {
+						if v, ok := info.ObjectOf(id).(*types.Var); ok && !v.IsField() && v.Parent() != nil && v.Parent() != v.Pkg().Scope() && frameArgRoot(info, fi.Decl, v) == types.Object(v) && v != m {
+							accObj = v
+						}
+					}
+				}
+			}
+		}
+		return true
+	})
+	isStage := func(as *ast.AssignStmt) bool {
+		if accObj == nil || len(as.Lhs) != 1 || len(as.Rhs) != 1 || objOfIdentPlain(info, as.Lhs[0]) != accObj {
+			return false
+		}
+		call := appendCall(as.Rhs[0])
+		return call != nil && !call.Ellipsis.IsValid() && objOfIdentPlain(info, call.Args[0]) == accObj
+	}
+	if accObj != nil {
+		// every other write to the accumulator creates it empty; it is not handed to anything else
+		okAcc := true
+		ast.Inspect(fi.Decl.Body, func(x ast.Node) bool {
+			switch y := x.(type) {
+			case *ast.FuncLit:
+				ast.Inspect(y, func(z ast.Node) bool {
+					if id, ok := z.(*ast.Ident); ok && info.ObjectOf(id) == accObj {
+						okAcc = false
+					}
+					return true
+				})
+				return false
+			case *ast.AssignStmt:
+				for i, l := range y.Lhs {
+					if objOfIdentPlain(info, l) != accObj || isStage(y) {
+						continue
+					}
+					empty := false
+					if len(y.Rhs) == len(y.Lhs) {
+						switch r := ast.Unparen(y.Rhs[i]).(type) {
+						case *ast.CallExpr:
+							if id, ok := ast.Unparen(r.Fun).(*ast.Ident); ok && id.Name == "make" && len(r.Args) >= 2 {
+								if tv, ok := info.Types[r.Args[1]]; ok && tv.Value != nil && tv.Value.String() == "0" {
+									empty = true
+								}
+							}
+						case *ast.CompositeLit:
+							empty = len(r.Elts) == 0
+						case *ast.Ident:
+							empty = isNilIdent(info, r)
+						}
+					}
+					if !empty {
+						okAcc = false
+					}
+				}
+			case *ast.UnaryExpr:
+				if y.Op == token.AND && objOfIdentPlain(info, y.X) == accObj {
+					okAcc = false
+				}
+			}
+			return true
+		})
+		if !okAcc {
+			accObj = nil
+		}
+	}
 	ev := func(n ast.Node) []Event {
 		var out []Event
 		inspectNoFuncLit(n, func(x ast.Node) bool {
@@ -461,7 +545,13 @@ func ruleResponseHandling(c *Ctx) {
 			case *ast.AssignStmt:
 				if len(y.Lhs) == 1 {
 					if _, p := selectorPath(info, y.Lhs[0]); len(p) > 0 && p[len(p)-1] == "resultq" {
-						out = append(out, Event{Kind: "result", Node: y})
+						kind := "result"
+						if call := appendCall(y.Rhs[0]); accObj != nil && len(y.Rhs) == 1 && call != nil && call.Ellipsis.IsValid() && objOfIdentPlain(info, call.Args[1]) == accObj {
+							kind = "flush"
+						}
+						out = append(out, Event{Kind: kind, Node: y})
+					} else if isStage(y) {
+						out = append(out, Event{Kind: "result", Node: y, Data: "staged"})
 					}
 				}
 			}
@@ -535,6 +625,31 @@ func ruleResponseHandling(c *Ctx) {
 		}
 	}
 	c.check(bad == "", rule, fi.Name, "one dequeue decision and one result per AFTResult", c.P.pos(loop.Pos()), fmt.Sprintf("%d loop paths", len(lp)), bad)
+	if accObj != nil {
+		// results are staged in a local list: every path of the function that made a dequeue decision hands the
+		// list over to the result queue after its last decision, whichever way it leaves
+		badF := ""
+		nDec := 0
+		for _, p := range paths {
+			last, flushed := -1, false
+			for i, e := range p.Events {
+				switch {
+				case e.Kind == "clearPendingOp" || (e.Kind == "result" && e.Data == "staged"):
+					last, flushed = i, false
+				case e.Kind == "flush" && last >= 0:
+					flushed = true
+				}
+			}
+			if last < 0 {
+				continue
+			}
+			nDec++
+			if !flushed {
+				badF = "results are staged in the local list " + accObj.Name() + " and this path leaves without handing the list to the result queue: operations dequeued earlier in the same response are neither pending nor resulted: " + p.describe(c.P)
+			}
+		}
+		c.check(badF == "" && nDec > 0, rule, fi.Name, "staged results are handed to the result queue on every exit", c.P.pos(loop.Pos()), fmt.Sprintf("%d paths with a dequeue decision, accumulator %s", nDec, accObj.Name()), badF)
+	}
 	// no effect before the mutual-exclusion test: the first effect event is dominated by the pop>1 test
 	bad2 := ""
 	for _, p := range paths {
